@@ -81,6 +81,11 @@ func (pp *buffer) AddComment(c string) {
 	// these hacks ensure that Go comments don't insert stray Coq comments
 	c = strings.ReplaceAll(c, "(*", "( *")
 	c = strings.ReplaceAll(c, "*)", "* )")
+	// Coq lexes string literals inside comments: an odd number of double quotes
+	// would open a string that swallows the rest of the file, so close it
+	if strings.Count(c, "\"")%2 == 1 {
+		c += "\""
+	}
 	indent := pp.Block("(* ", "%s *)", c)
 	pp.Indent(-indent)
 }
